@@ -11,7 +11,7 @@ namespace sim {
 
 WorldQ::~WorldQ() { for (auto *m : msgs) delete m; }
 
-bool WorldQ::enabled(const std::string &o) const { return !oracles_off.count(o); }
+bool WorldQ::enabled(const std::string &o) const { return oracles_on.empty() ? !oracles_off.count(o) : oracles_on.count(o) > 0; }
 
 std::string WorldQ::qp(const std::string &dir, uint64_t n, bool sp) const {
   std::string s = home + "/queue/" + dir + "/";
@@ -79,6 +79,7 @@ void WorldQ::setup() {
   spawn_limit[1] = (int)plan->knobs.geti("spawn_limit_remote", spawnmax);
   default_verdict = plan->knobs.gets("default_verdict", "K");
   for (auto &o : plan->knobs["oracles_off"].a) oracles_off.insert(o.str());
+  for (auto &o : plan->knobs["oracles"].a) oracles_on.insert(o.str());
 
   logsink = k->new_sink("qmail-send-log");
 
